@@ -107,6 +107,23 @@ func init() {
 	ops["names.macdec"] = func(f Fields) string {
 		return nmCanon(guard(func() string { return nmRunes(mac.Decode(f.Hex("b"))) }))
 	}
+	// direct predicates on the single-byte decoder (finite table: run exhaustively on every check)
+	ops["names.maconeb"] = func(f Fields) string {
+		return nmCanon(guard(func() string {
+			b := byte(f.Int("b"))
+			r := mac.DecodeOne(b)
+			return fmt.Sprintf("%d;%s;%s", int(r), nmRunes(mac.Decode([]byte{b})), hx(mac.Encode(string(r))))
+		}))
+	}
+	ops["names.maconer"] = func(f Fields) string {
+		return nmCanon(guard(func() string {
+			enc := mac.Encode(string(rune(f.Int("r"))))
+			if len(enc) != 1 {
+				return fmt.Sprintf("encoded-to-%d-bytes", len(enc))
+			}
+			return fmt.Sprintf("%d;%d", enc[0], int(mac.DecodeOne(enc[0])))
+		}))
+	}
 	ops["names.macenc"] = func(f Fields) string {
 		return nmCanon(guard(func() string { return hx(mac.Encode(nmString(f, "r"))) }))
 	}
@@ -630,6 +647,19 @@ func areaNames(c *Ctx) {
 			c.Case(Verdict, "names.generator-panic", "section="+sec.name, true)
 		}
 	}
+}
+
+// nmMacRepertoireHigh: the 128 non-ASCII runes of Mac OS Roman (the Apple table, written down here so
+// that the generator does not depend on the library under test)
+var nmMacRepertoireHigh = []int{
+	0xC4, 0xC5, 0xC7, 0xC9, 0xD1, 0xD6, 0xDC, 0xE1, 0xE0, 0xE2, 0xE4, 0xE3, 0xE5, 0xE7, 0xE9, 0xE8,
+	0xEA, 0xEB, 0xED, 0xEC, 0xEE, 0xEF, 0xF1, 0xF3, 0xF2, 0xF4, 0xF6, 0xF5, 0xFA, 0xF9, 0xFB, 0xFC,
+	0x2020, 0xB0, 0xA2, 0xA3, 0xA7, 0x2022, 0xB6, 0xDF, 0xAE, 0xA9, 0x2122, 0xB4, 0xA8, 0x2260, 0xC6, 0xD8,
+	0x221E, 0xB1, 0x2264, 0x2265, 0xA5, 0xB5, 0x2202, 0x2211, 0x220F, 0x3C0, 0x222B, 0xAA, 0xBA, 0x3A9, 0xE6, 0xF8,
+	0xBF, 0xA1, 0xAC, 0x221A, 0x192, 0x2248, 0x2206, 0xAB, 0xBB, 0x2026, 0xA0, 0xC0, 0xC3, 0xD5, 0x152, 0x153,
+	0x2013, 0x2014, 0x201C, 0x201D, 0x2018, 0x2019, 0xF7, 0x25CA, 0xFF, 0x178, 0x2044, 0x20AC, 0x2039, 0x203A, 0xFB01, 0xFB02,
+	0x2021, 0xB7, 0x201A, 0x201E, 0x2030, 0xC2, 0xCA, 0xC1, 0xCB, 0xC8, 0xCD, 0xCE, 0xCF, 0xCC, 0xD3, 0xD4,
+	0xF8FF, 0xD2, 0xDA, 0xDB, 0xD9, 0x131, 0x2C6, 0x2DC, 0xAF, 0x2D8, 0x2D9, 0x2DA, 0xB8, 0x2DD, 0x2DB, 0x2C7,
 }
 
 // nmTry runs f and returns the panic message ("" if none)
@@ -1368,6 +1398,18 @@ func nmCodecs(c *Ctx) {
 	c.Case(Verdict, "names.macdec", "b="+hx(all), true)
 	c.Case(Verdict, "names.macdec", "b=", false)
 	c.Stat("macdec", "all-256-bytes")
+	// DecodeOne on all 256 bytes: agrees with Decode, and Encode inverts it; every rune of the
+	// repertoire (ASCII and the 128 runes of the regenerated table): Encode then DecodeOne gives it back
+	for i := 0; i < 256; i++ {
+		c.Case(Direct, "names.maconeb", fmt.Sprintf("b=%d", i), i >= 128)
+	}
+	for i := 0; i < 128; i++ {
+		c.Case(Direct, "names.maconer", fmt.Sprintf("r=%d", i), false)
+	}
+	for _, x := range nmMacRepertoireHigh {
+		c.Case(Direct, "names.maconer", fmt.Sprintf("r=%d", x), true)
+	}
+	c.Stat("macdecodeone", "all-256-bytes-and-whole-repertoire")
 	// every rune of the repertoire, and the neighbours of each (mostly unrepresentable)
 	for _, x := range nmMacHigh {
 		for _, d := range []rune{-1, 0, 1} {
